@@ -195,7 +195,7 @@ var props = map[string]*propCfg{
 	},
 	"C11": {
 		ID: "C11", Level: "model_checking", Exhaustive: true,
-		Rule:        "Markers.tla models what a query writes into the caller's document (the <- back-reference per row with nesting, CTE entries, the EXISTS row extension) with a failure possible at every step; TLC checks DocRestored on all behaviours (3 rows, nesting depth 3) and, as a non-vacuity audit, that each of the four repaired deviations of the pinned tree violates it or RowsUntouched. Binding: every case of the fault-shape module MC_C19 (26 shapes with the fault-injecting function in every clause position x tables) is run fault-free and with the k-th invocation failing for every k, plain and Wrapped, and reduced configurations of the families of C01 (filters, IN subquery), C03 (GROUP BY), C05 (ORDER BY / LIMIT), C06 (DISTINCT / UNION), C07 (CTEs, derived tables, subqueries, EXISTS) and C08 (multi-dimensional FROM) are run plain and Wrapped; after every New + Exec - successful or failed, and after a follow-up statement - the caller's document is compared with a deep copy taken before (cycle-safe: no added / removed key at any depth, no changed array element). Non-trivial: the query contains a subquery, EXISTS, CTE, derived table, join, ORDER BY, aggregate or an injected fault; distinct = distinct (document, query). A driver runs 38 statement texts the query AST does not cover (FUSE, DEFAULTKEY, GROUP BY on nested paths, aliased dual, selectors with ranges / pipes / keep / mix in FROM, INTO and USING joins, outer joins over unaliased tables, UNION with ORDER BY, ASYNC / ONCE calls ...) on one rich document, as built, as decoded by encoding/json and with a second Exec of the same Query, and compares the document afterwards: the invariant needs no model of their results.",
+		Rule:        "Markers.tla models what a query writes into the caller's document (the <- back-reference per row with nesting, CTE entries, the EXISTS row extension) with a failure possible at every step; TLC checks DocRestored on all behaviours (3 rows, nesting depth 3) and, as a non-vacuity audit, that each of the four repaired deviations of the pinned tree violates it or RowsUntouched. Binding: every case of the fault-shape module MC_C19 (26 shapes with the fault-injecting function in every clause position x tables) is run fault-free and with the k-th invocation failing for every k, plain and Wrapped, and reduced configurations of the families of C01 (filters, IN subquery), C03 (GROUP BY), C05 (ORDER BY / LIMIT), C06 (DISTINCT / UNION), C07 (CTEs, derived tables, subqueries, EXISTS) and C08 (multi-dimensional FROM) are run plain and Wrapped; after every New + Exec - successful or failed, and after a follow-up statement - the caller's document is compared with a deep copy taken before (cycle-safe: no added / removed key at any depth, no changed array element). Non-trivial: the query contains a subquery, EXISTS, CTE, derived table, join, ORDER BY, aggregate or an injected fault; distinct = distinct (document, query). A driver runs 51 statement texts the query AST does not cover (FUSE, DEFAULTKEY, GROUP BY on nested paths, aliased dual, selectors with ranges / pipes / keep / mix in FROM, INTO and USING joins, outer joins over unaliased tables, UNION with ORDER BY, ASYNC / ONCE calls ...) on one rich document, as built, as decoded by encoding/json and with a second Exec of the same Query, and compares the document afterwards: the invariant needs no model of their results.",
 		Assumptions: baseAssumptions,
 		Quick: []legCfg{
 			{Kind: "mc", Name: "markers", Module: "Markers", Cfg: "Markers_ok.cfg", Timeout: 5 * time.Minute, TLCWorkers: 4, NoExport: true},
@@ -216,7 +216,7 @@ var props = map[string]*propCfg{
 	},
 	"C12": {
 		ID: "C12", Level: "model_checking", Exhaustive: true,
-		Rule:        "TLC enumerates the matrix of 27 expression forms (column, nested path, missing key, number / string / boolean / NULL literals, + / % ~ -, CASE with and without ELSE, CONCAT, ARRAY, IF, FIRST, TO_UPPER, UNWIND, object and array columns, select-list subquery plain and aggregate, ASYNC and SCOPED calls, nested calls) x 8-11 clause positions (select item, next to *, WHERE operand, CASE arm, function argument, IF argument, HAVING, DISTINCT, ORDER BY key, comparison operand, IN list) plus 17 statement-level forms (GROUP BY aggregates, group star, whole-table aggregates, CTE, derived table, UNION, EXISTS, IN subquery, ORDER BY + LIMIT/OFFSET, SPIN / SPINASYNC, several ASYNC items) x tables of 1..MaxRows rows, and checks that the specification's results are plain values and a function of (query, document). Each case is executed: reflection walk of the real result (only maps, slices, strings, booleans, nil, Go numbers that are finite; no pointer, func, named engine type, cycle, \"<-\" key), encoding/json round trip, and repetitions on equal inputs (2; 5 when ORDER BY leaves ties; 8 with ASYNC calls or NULL join keys): the identical sequence, or - only when grouping or a join is involved and ORDER BY does not determine a total order - the equal multiset. Statement forms include DISTINCT + ORDER BY with ties (with and without LIMIT) and joins on a table whose key is NULL / missing in some rows. Non-trivial: a non-empty successful result; distinct = distinct (document, query). Round 4: joins cut by a LIMIT without ORDER BY (the same rows on every evaluation), FROM dual at the top and in row-scoped subqueries, and driver texts: 44 statement texts outside the AST (dual under a WITH, derived tables with ASYNC items on both sides of a join, tuples, FUSE, arithmetic beyond the largest float64, CHANGETYPE of NaN / Inf ...) as built and as decoded by encoding/json - plain by reflection and JSON round trip (or an error where the text says so), equal on six repetitions and on a second Exec of the same Query.",
+		Rule:        "TLC enumerates the matrix of 27 expression forms (column, nested path, missing key, number / string / boolean / NULL literals, + / % ~ -, CASE with and without ELSE, CONCAT, ARRAY, IF, FIRST, TO_UPPER, UNWIND, object and array columns, select-list subquery plain and aggregate, ASYNC and SCOPED calls, nested calls) x 8-11 clause positions (select item, next to *, WHERE operand, CASE arm, function argument, IF argument, HAVING, DISTINCT, ORDER BY key, comparison operand, IN list) plus 17 statement-level forms (GROUP BY aggregates, group star, whole-table aggregates, CTE, derived table, UNION, EXISTS, IN subquery, ORDER BY + LIMIT/OFFSET, SPIN / SPINASYNC, several ASYNC items) x tables of 1..MaxRows rows, and checks that the specification's results are plain values and a function of (query, document). Each case is executed: reflection walk of the real result (only maps, slices, strings, booleans, nil, Go numbers that are finite; no pointer, func, named engine type, cycle, \"<-\" key), encoding/json round trip, and repetitions on equal inputs (2; 5 when ORDER BY leaves ties; 8 with ASYNC calls or NULL join keys): the identical sequence, or - only when grouping or a join is involved and ORDER BY does not determine a total order - the equal multiset. Statement forms include DISTINCT + ORDER BY with ties (with and without LIMIT) and joins on a table whose key is NULL / missing in some rows. Non-trivial: a non-empty successful result; distinct = distinct (document, query). Round 4: joins cut by a LIMIT without ORDER BY (the same rows on every evaluation), FROM dual at the top and in row-scoped subqueries, and driver texts: 42 statement texts outside the AST (dual under a WITH, derived tables with ASYNC items on both sides of a join, tuples, FUSE, arithmetic beyond the largest float64, CHANGETYPE of NaN / Inf ...) as built and as decoded by encoding/json - plain by reflection and JSON round trip (or an error where the text says so), equal on six repetitions and on a second Exec of the same Query.",
 		Assumptions: baseAssumptions,
 		Quick:       []legCfg{mc("matrix", "MC_C12", "C12_quick.cfg", 10*time.Minute), {Kind: "exec", Name: "texts", Mode: "texts", Timeout: 5 * time.Minute}},
 		Thorough:    []legCfg{mc("matrix", "MC_C12", "C12_thorough.cfg", 30*time.Minute), mc("compose", "MC_C07", "C11_C07.cfg", 10*time.Minute), mc("group", "MC_C03", "C11_C03.cfg", 10*time.Minute), {Kind: "exec", Name: "texts", Mode: "texts", Timeout: 5 * time.Minute}},
@@ -279,7 +279,7 @@ var props = map[string]*propCfg{
 	},
 	"C13": {
 		ID: "C13", Level: "model_checking", Race: true,
-		Rule:        "Cache.tla: all interleavings of 3 goroutines x 2 selector texts through the cache protocol of ExecReader with map accesses as begin / end pairs (NoOverlap, OwnEntry, UnderLock, NoSelfDeadlock with a goroutine whose evaluation re-enters ExecReader to resolve a CTE, termination under fairness); the pinned read-after-unlock protocol must violate NoOverlap and holding the mutex during evaluation NoSelfDeadlock. Markers.tla (C11) adds RowsUntouched: a query writes nothing into the caller's rows at any time, which is what makes one document shareable. Binding: (T) the guarded hook in ExecReader reports every protocol step of every goroutine with the fact whether the cache mutex is held (TryLock); 2-8 free-running goroutines evaluate fresh and shared selector texts and the recorded sequence is validated against CacheTrace (lock only a free mutex, store / read only as holder, fact = held at every step). (X) 30 scenario classes - separate documents / one shared document; fresh / cached selector texts; filter, projection, select-list subquery, EXISTS, IN subquery, CTE, GROUP BY, ORDER BY, Wrapped, PARALLEL joins, ASYNC / SPINASYNC at top level, in a subquery and in a derived table, CTEs read through a path, one open-range selector text over arrays of different lengths, a lone * with and without ORDER BY / LIMIT / DISTINCT and an unaliased join on the shared document, and two cold classes (rounds of a RegisterImmediateFunction that has returned followed by concurrent first function calls, with the expectation written down instead of obtained from the library) - x 2..8 (thorough 2..16) goroutines x 60 (300) queries each, in a child process built with the race detector: every goroutine's result must equal the query's result when run alone, and a race report, a 'concurrent map' fatal error, a crash, a hang or a modified shared document is a violation. Non-trivial: every scenario run; distinct = distinct (scenario, goroutine count). Round 4 classes: one new statement text in every goroutine at the same time (USING joins, a WITH in front of a UNION), ASYNC / SPINASYNC calls whose arguments are subqueries, EXISTS inside the ON of PARALLEL joins.",
+		Rule:        "Cache.tla: all interleavings of 3 goroutines x 2 selector texts through the cache protocol of ExecReader with map accesses as begin / end pairs (NoOverlap, OwnEntry, UnderLock, NoSelfDeadlock with a goroutine whose evaluation re-enters ExecReader to resolve a CTE, termination under fairness); the pinned read-after-unlock protocol must violate NoOverlap and holding the mutex during evaluation NoSelfDeadlock. Markers.tla (C11) adds RowsUntouched: a query writes nothing into the caller's rows at any time, which is what makes one document shareable. Binding: (T) the guarded hook in ExecReader reports every protocol step of every goroutine with the fact whether the cache mutex is held (TryLock); 2-8 free-running goroutines evaluate fresh and shared selector texts and the recorded sequence is validated against CacheTrace (lock only a free mutex, store / read only as holder, fact = held at every step). (X) 40 scenario classes - separate documents / one shared document; fresh / cached selector texts; filter, projection, select-list subquery, EXISTS, IN subquery, CTE, GROUP BY, ORDER BY, Wrapped, PARALLEL joins, ASYNC / SPINASYNC at top level, in a subquery and in a derived table, CTEs read through a path, one open-range selector text over arrays of different lengths, a lone * with and without ORDER BY / LIMIT / DISTINCT and an unaliased join on the shared document, and two cold classes (rounds of a RegisterImmediateFunction that has returned followed by concurrent first function calls, with the expectation written down instead of obtained from the library) - x 2..8 (thorough 2..16) goroutines x 60 (300) queries each, in a child process built with the race detector: every goroutine's result must equal the query's result when run alone, and a race report, a 'concurrent map' fatal error, a crash, a hang or a modified shared document is a violation. Non-trivial: every scenario run; distinct = distinct (scenario, goroutine count). Round 4 classes: one new statement text in every goroutine at the same time (USING joins, a WITH in front of a UNION), ASYNC / SPINASYNC calls whose arguments are subqueries, EXISTS inside the ON of PARALLEL joins.",
 		Assumptions: append([]string{"the Go race detector and the process exit status are observation channels on the executions the scenario driver produces; races in code no scenario exercises are not seen", "goroutine schedules are those the Go scheduler produces during the runs (not enumerated)"}, baseAssumptions...),
 		Quick: []legCfg{
 			{Kind: "mc", Name: "cache", Module: "Cache", Cfg: "Cache_ok.cfg", Timeout: 5 * time.Minute, TLCWorkers: 4, NoExport: true},
